@@ -339,5 +339,9 @@ func (o *objectGoSlice) sortGet(i int) Value {
 }
 
 func (o *objectGoSlice) swap(i int, j int) {
+	if n := len(*o.data); i >= n || j >= n {
+		// the comparator has shrunk the slice while it was being sorted
+		return
+	}
 	(*o.data)[i], (*o.data)[j] = (*o.data)[j], (*o.data)[i]
 }
